@@ -10,10 +10,10 @@ INFO = {
         "quick": "29+ edge trees (one per dependency-edge kind; every option is the operation target once) and T06,T07 (seeded targets); per tree: user-state descriptors (sampled partition of ~40 states per job) (bool 3 states, int symbolic 0..10^5 + malformed candidates, strings from candidates, choice picks) x one operation {unset,set,reset,reset-menu} on a fixed target per job with symbolic value; read order forward and reverse",
         "thorough": "all templates T01..T12,T15 + random trees; same, plus 2-step histories",
     },
-    "outside": ["trees outside the corpus", "histories longer than the inductive step's single operation are covered only through the all-caches-filled argument (DESIGN C03)", "hex/float/string values outside the candidate lists"],
+    "outside": ["trees outside the corpus", "read subsets other than: everything (forward / reverse order), exactly one item, nothing", "histories longer than the inductive step's single operation are covered only through the all-caches-filled argument (DESIGN C03)", "hex/float/string values outside the candidate lists"],
     "stubs": [],
 }
-BUDGET = {"quick": 240, "thorough": 1500}
+BUDGET = {"quick": 300, "thorough": 2400}
 
 
 def _dom(tier):
@@ -68,8 +68,24 @@ def step(ctx, *args):
     vals = ST.decode(slots, dom, args[:nstate], fixed=ctx.get("fixed"))
     k = ST.build(tid)
     ST.apply_state(k, slots, vals)
-    ST.snapshot(k, reverse=ctx.get("reverse", False))  # fill every cache
     rest = args[nstate:]
+    if ctx.get("preread") == "one":
+        # partial read: exactly one item (or none) is read before the operation, every other cache stays empty
+        ri = rest[-1]
+        rest = rest[:-1]
+        items = [("val", s_) for s_ in k.unique_defined_syms] + [("vis", s_) for s_ in k.unique_defined_syms] + [("sel", c_) for c_ in k.unique_choices] + [("asg", s_) for s_ in k.unique_defined_syms if s_.choice is not None]
+        for j, (what, obj) in enumerate(items):
+            if ri == j:
+                if what == "val":
+                    obj.str_value
+                elif what == "vis":
+                    obj.visibility
+                elif what == "asg":
+                    obj.assignable
+                else:
+                    obj.selection
+    else:
+        ST.snapshot(k, reverse=ctx.get("reverse", False))  # fill every cache
     for j, t in enumerate(ctx["targets"]):
         ok, ov = rest[2 * j], rest[2 * j + 1]
         _apply_op(k, slots[t], odom, ok, ov)
@@ -132,7 +148,7 @@ def jobs(tier, seed, excluded=()):
     etrees = edges.ids()
     if tier == "quick":
         big = ["T06", "T07"]
-        budget, nparts, tmo = 40, 1, 60
+        budget, nparts, tmo = 30, 1, 60
     else:
         big = ["T01", "T02", "T03", "T04", "T05", "T06", "T07", "T08", "T09", "T10", "T11", "T12", "T15"] + ["R%d" % (1000 * seed + j) for j in range(8)]
         budget, nparts, tmo = 900, 3, 400
@@ -184,8 +200,31 @@ def jobs(tier, seed, excluded=()):
                             tree=tid,
                         )
                     )
+    # partial reads: one (symbolic) item read before the operation instead of all of them
+    ptrees = ["E_choice_default", "E_choice_dep", "E_choice_member_dep", "E_select", "E_imply", "E_default_val"] if tier == "quick" else (etrees + ["T07", "T08", "T06", "T03"])
+    for tid in ptrees:
+        slots = ST.layout(tid)
+        k = ST.build(tid)
+        nitems = 2 * len(k.unique_defined_syms) + len(k.unique_choices) + len([s_ for s_ in k.unique_defined_syms if s_.choice is not None])
+        targets = [i for i, sl in enumerate(slots) if sl.kind != "pick"]
+        if tier == "quick" and len(targets) > 3:
+            rng.shuffle(targets)
+            targets = targets[:3]
+        for t in targets:
+            parts, complete = ST.partitions(slots, dom, 6 if tier == "quick" else 40, 1, rng, must_free=[slots[t].name])
+            fixed = parts[0]
+            sp, spre = ST.params_for(slots, dom, fixed=fixed)
+            sl = slots[t]
+            if sl.kind == "int":
+                vb = "-%d <= ov0 <= %d" % (len(odom.int_cands), odom.int_max)
+            elif sl.kind == "bool":
+                vb = "0 <= ov0 <= 1"
+            else:
+                vb = "0 <= ov0 < %d" % {"hex": len(odom.hex_cands), "float": len(odom.float_cands), "string": len(odom.str_cands)}[sl.kind]
+            free = [x for x in slots if x.name not in fixed]
+            out.append(Job("C03", "C03-%s-%s-oneread" % (tid, sl.name), "vk.props.c03", "step", {"tree": tid, "dom": dom.to_json(), "odom": odom.to_json(), "nstate": len(sp), "targets": [t], "reverse": False, "fixed": fixed, "preread": "one"}, list(sp) + [("ok0", "int"), ("ov0", "int"), ("ri", "int")], spre + " and 0 <= ok0 <= 3 and " + vb + " and -1 <= ri < %d" % nitems, timeout=tmo * 2, samples=[_rand_state(rng, free, dom) + [rng.randint(0, 3), 0, rng.randint(-1, nitems - 1)] for _ in range(3)], tree=tid))
     # loads of tool-written files into used instances
-    ltrees = ["T07", "T06", "E_choice_default", "E_setdef_src", "T03", "E_choice_member_dep"] if tier == "quick" else ["T01", "T03", "T05", "T06", "T07", "T08", "T12", "T15", "E_choice_default", "E_choice_dep", "E_choice_member_dep", "E_setdef_src", "E_set_src", "E_select"]
+    ltrees = ["T07", "T06", "E_choice_default", "E_setdef_src", "E_choice_member_dep"] if tier == "quick" else ["T01", "T03", "T05", "T06", "T07", "T08", "T12", "T15", "E_choice_default", "E_choice_dep", "E_choice_member_dep", "E_setdef_src", "E_set_src", "E_select"]
     for tid in ltrees:
         slots = ST.layout(tid)
         for pi in range(2 if tier == "quick" else 6):
